@@ -266,6 +266,13 @@ def run(ctx, tier):
     I = make_interp(ctx.model, unroll=3 if tier == 'thorough' else 2)     # two / three matching entries per @-command
     at_rules(ctx, I)
     consts_rule(ctx)
+    # "the same re-synchronisation obligations as leaving a region": what exitExcludedRegion builds for the disable context
+    # is held to the composition and value rules of C03 (exactly one G92 E and one X/Y move, Z ordering, logical values)
+    from . import rules_c03
+    from .pathfacts import S_OID as _S
+    ctx.rule('C03.R1', 'C03: exit composition - pending, exit script, G92 E, then Z before XY iff rising / after iff falling / absent iff equal', floor=6)
+    ctx.rule('C03.R4', 'C03: every word of the exit commands is the logical value of the tracked native position', floor=6)
+    rules_c03.exit_rules(ctx, make_interp(ctx.model), {('fld', _S, 'excluding'): [True]}, 'exitExcludedRegion (disable @-command)')
     run_path_rules(ctx, __name__, 'path_rules', ['G0', 'G1', 'G2', 'G3'], unroll=1)
     ctx.assume('the exit sequence itself is decided by C03; pattern matching of parameters is AtCommandAction.matches '
                '(regular expression supplied by the user)')
